@@ -15,7 +15,7 @@ from __future__ import annotations
 
 import copy
 import warnings
-from typing import Any, Optional
+from typing import Any, Optional, Union
 
 import anyio
 from hypothesis import strategies as st
@@ -40,7 +40,7 @@ class T2(T0):
 
 
 TYPES = [T0, T1, T2]
-ANNOTS = ["plain", "optional", "pep604", "str", "str_optional", "str_local"]
+ANNOTS = ["plain", "optional", "pep604", "str", "str_optional", "str_local", "none_first", "union_none_first", "str_none_first"]
 STATES = ["static", "factory", "async_factory", "inherited", "missing"]
 
 
@@ -108,11 +108,17 @@ def _annot(inj: dict) -> str:
         return f'"{t}"'
     if a == "str_optional":
         return f'"Optional[{t}]"'
+    if a == "none_first":
+        return f"None | {t}"
+    if a == "union_none_first":
+        return f"Union[None, {t}]"
+    if a == "str_none_first":
+        return f'"None | {t}"'
     return '"LocalT"'
 
 
 def is_optional(inj: dict) -> bool:
-    return inj["annot"] in ("optional", "pep604", "str_optional")
+    return inj["annot"] in ("optional", "pep604", "str_optional", "none_first", "union_none_first", "str_none_first")
 
 
 def source(case: dict, decorated: bool) -> str:
@@ -151,7 +157,7 @@ def source(case: dict, decorated: bool) -> str:
     defn = ("async def" if case["is_async"] else "def") + f" func({', '.join(sig)}):"
     deco = "@inject\n" if decorated else ""
     body = f"marker()\nreturn {ret}"
-    lines = ["def make(inject, resource, marker, T0, T1, T2, Optional):", "    class LocalT:", "        def __init__(self, tag):",
+    lines = ["def make(inject, resource, marker, T0, T1, T2, Optional, Union):", "    class LocalT:", "        def __init__(self, tag):",
              "            self.tag = tag"]
     if case["method"]:
         lines.append("    class Holder:")
@@ -173,9 +179,9 @@ def compile_fn(case: dict, decorated: bool, marker: Any) -> tuple:
     from asphalt.core import inject, resource
 
     src = source(case, decorated)
-    ns: dict[str, Any] = {"T0": T0, "T1": T1, "T2": T2, "Optional": Optional}
+    ns: dict[str, Any] = {"T0": T0, "T1": T1, "T2": T2, "Optional": Optional, "Union": Union}
     exec(compile(src, "<generated>", "exec"), ns)
-    return ns["make"](inject, resource, marker, T0, T1, T2, Optional)
+    return ns["make"](inject, resource, marker, T0, T1, T2, Optional, Union)
 
 
 # ------------------------------------------------------------------------------------
